@@ -4,11 +4,15 @@ around the mechanisms a property depends on (used to hunt false alarms of the
 checks). Only the property text and the scratch worktree are given."""
 import json, sys
 pid = sys.argv[1]
+rnd = sys.argv[2] if len(sys.argv) > 2 else ''
 for l in open('/verif/properties.jsonl'):
     p = json.loads(l)
     if p['id'] == pid: break
-wt = f'/tmp/wt/{pid}rf'
-out = f'/tmp/refout/{pid}'
+wt = f'/tmp/wt/{pid}rf{rnd}'
+out = f'/tmp/refout/{pid}{rnd}'
+extra = ''
+if rnd:
+    extra = ' In this round prefer STRUCTURAL clean-ups that touch two or more functions: extract a helper out of a loop body or out of an error path; merge two tiny helpers into their caller; turn a closure into a method (or a method value); introduce a small named type with a method; rename unexported functions, methods, struct fields and types; replace a range loop by an index loop (same order) or the reverse; replace a chain of if/return by a switch; move a guard into the callee (keeping it on every path); pass a value instead of re-reading a field when the field cannot change in between; replace a boolean flag by an early return.'
 print(f"""You are helping to evaluate a static-analysis tool for the open-source project Workiva/frugal (a Thrift-superset IDL compiler written in Go with Go/Java/Dart/Python generators, plus a Go runtime library under lib/go). The tool checks that the source code keeps a stated semantic property. We want to know whether the tool raises FALSE ALARMS on harmless code changes. Your job: produce BEHAVIOUR-PRESERVING refactorings of the code that implements the property — the kind of clean-up a maintainer might commit — which do NOT change what the program does.
 
 You have your own scratch git worktree of the repository at: {wt}
@@ -23,6 +27,7 @@ WHAT TO PRODUCE: FOUR different, independent refactorings (call them a, b, c, d)
   1. leave the observable behaviour exactly the same for every input, schedule and history (the property above must still hold, and nothing else may change either) — be careful and conservative: if in doubt whether an edit can change behaviour, do not make it;
   2. compile, and the existing test suite, unedited, must still pass (all 181 tests);
   3. be a REALISTIC clean-up touching the code the property depends on, of a different kind each time. Ideas: extract a helper function / inline a helper; rename local variables, fields or unexported functions; invert a condition and swap the branches; turn an if/else-if chain into a switch (or back); replace `defer x.Unlock()` by explicit unlocks on every path (or the reverse) keeping the same lock scope; hoist a constant expression into a named constant; replace a struct literal by a small unexported constructor; split a long function into two; reorder independent statements; replace `for i := 0; i < n; i++` by `for i := range` (same order); introduce an early return instead of nesting; use a named result or remove one; replace a closure by a method value with the same behaviour; move code between files of the same package.
+  {extra}
   Each refactoring should change roughly 5-40 lines and must touch at least one of the mechanisms listed above (not unrelated code).
 
 ENVIRONMENT: no network. Every shell command needs:  export GOFLAGS=-mod=mod GOPROXY=off GOSUMDB=off GOTOOLCHAIN=local; unset GOWORK
